@@ -10,7 +10,7 @@ import numpy as np
 import z3
 
 from . import solve
-from .interp import Interp, arr0, kind
+from .interp import Interp, arr0, kdata, kind
 from .ops import KeyS, isconc
 from .trace import _isleaf
 from .uf import GenericWorld, world
@@ -210,6 +210,29 @@ def key_terms(exprs):
             out.append(t)
         if z3.is_app(t):
             stack.extend(t.children())
+    return out
+
+
+def key_injectivity(pairs):
+    """instances of the free-algebra (idealised PRNG) injectivity of the key constructors along the given pairs of key terms:
+    ksplit_n(k, j), kfold(k, d), kseed(n), kwrap(d0, d1) are injective in their arguments; a key is determined by ALL of its data words
+    (kdata0(k) = kdata0(k') and kdata1(k) = kdata1(k') => k = k') but not by one of them"""
+    out, seen = [], set()
+    stack = list(pairs)
+    while stack:
+        a, b = stack.pop()
+        if not (isinstance(a, z3.ExprRef) and isinstance(b, z3.ExprRef)) or (a.get_id(), b.get_id()) in seen or a.get_id() == b.get_id():
+            continue
+        seen.add((a.get_id(), b.get_id()))
+        if z3.is_app(a) and z3.is_app(b) and a.decl().get_id() == b.decl().get_id() and a.num_args() == b.num_args() and a.num_args() > 0:
+            d = a.decl().name()
+            if d.startswith("ksplit") or d in ("kfold", "kseed", "kwrap"):
+                out.append(z3.Implies(a == b, z3.And([a.arg(i) == b.arg(i) for i in range(a.num_args())])))
+            elif d.startswith("kdata"):
+                ka, kb = a.arg(0), b.arg(0)
+                out.append(z3.Implies(z3.And(kdata(0)(ka) == kdata(0)(kb), kdata(1)(ka) == kdata(1)(kb)), ka == kb))
+            for i in range(a.num_args()):
+                stack.append((a.arg(i), b.arg(i)))
     return out
 
 
